@@ -11,9 +11,6 @@ qm_c09 — driver for M-Types (relation, narrowing, inhabitation). One request p
                                     c = closed contractive, x = neither → string over f c x
   (compat a b) | (overlap a b)                                      → true | false | fuel-out
   (matrix compat|overlap id…)       all ordered pairs of the ids, row-major → string over t f ?
-  (matrix compatT id…)              the same with the proposed rule `cycleDropsInnerStack` (NOT the code: a resolved `Cycle` continues
-                                    below the enclosing types of the boundary it points to); used by the
-                                    harness only to name the mechanism of an open defect
   (inh t <value> st…)               inhabitation below the boundaries st (top first; default none)
                                                                     → true | false
   (enum t efuel width)              confirmed inhabitants            → (vals <value>…)
@@ -128,11 +125,10 @@ def c09Step (s : C09State) (req : List Sx) : C09State × String :=
     | some a, some b => (s, renderOptBool (typesOverlap T relFuel a b))
     | _, _ => (s, "bad-request")
   | [.list (.atom "matrix" :: .atom which :: ids)] =>
-    match natArgs ids, (if which = "compat" ∨ which = "compatT" then some Mode.all else if which = "overlap" then some Mode.any else none) with
+    match natArgs ids, (if which = "compat" then some Mode.all else if which = "overlap" then some Mode.any else none) with
     | some ids, some mode =>
-      let chk := if which = "compatT" then checkRelV { cycleDropsInnerStack := true } T mode else checkRel T mode
       let cs := ids.flatMap (fun a => ids.map (fun b =>
-        relChar ((chk relFuel [] {} a b).map (·.1))))
+        relChar ((checkRel T mode relFuel [] {} a b).map (·.1))))
       (s, String.ofList cs)
     | _, _ => (s, "bad-request")
   | [.list (.atom "inh" :: t :: v :: st)] =>
